@@ -645,10 +645,14 @@ def gen_n(g, meta, cfg=None):
     return [g.randint(1, 40) for _ in range(meta["e"])]
 
 
-def generate(run_seed):
+def generate(run_seed, deep=False):
     st = Streams(run_seed)
     g, sc = st["gen"], st["sched"]
     cfg = gen_config(g)
+    cfg["deep"] = bool(deep) and st["deep"].random() < 0.5
+    if cfg["deep"] and not cfg["big"]:      # thorough tier: longer histories, up to three networks
+        cfg["length"] = st["deep"].randint(30, 70)
+        cfg["nets"] = st["deep"].randint(1, 3)
     ops = [dict({"op": "peer.config", "c": 0}, **cfg["peer"])]
     nets = {}
     faults = cfg["faults"]
@@ -666,7 +670,7 @@ def generate(run_seed):
         ops.append(rec)
         nets[rec["id"]] = meta
     guard = 0
-    while len(ops) < cfg["length"] and guard < 200:
+    while len(ops) < cfg["length"] and guard < 600:
         guard += 1
         c = sc.randrange(cfg["clients"])
         r = sc.random()
